@@ -35,6 +35,8 @@ type Document struct {
 	stylesRelationshipID string
 	// 解析时当前的表格嵌套深度
 	tableNesting int
+	// 最近一次 GenerateTOC 使用的配置，UpdateTOC 据此重建目录
+	tocConfig *TOCConfig
 }
 
 // maxTableNesting 打开文档时允许的最大表格嵌套深度
